@@ -310,11 +310,17 @@ func checkC20(c *core.Ctx, l *core.Ledger) {
 		ok := len(lints) == 1 && len(cmp) == 1
 		why := "Compare/Lints calls not found"
 		if ok {
+			isLen := func(cm core.Cmp) bool {
+				return strings.HasPrefix(core.Sym(cm.X), "len(") && strings.Contains(core.Sym(cm.X), "Lints(")
+			}
+			// "there are diagnostics" in any spelling: > 0, != 0, >= 1 — and its complement
 			pos := core.GuardEdges(f, func(cm core.Cmp) bool {
-				return cm.Op == token.GTR && strings.HasPrefix(core.Sym(cm.X), "len(") && strings.Contains(core.Sym(cm.X), "Lints(") && core.Sym(cm.Y) == "c:0"
+				y := core.Sym(cm.Y)
+				return isLen(cm) && ((y == "c:0" && (cm.Op == token.GTR || cm.Op == token.NEQ)) || (y == "c:1" && cm.Op == token.GEQ))
 			})
 			npos := core.GuardEdges(f, func(cm core.Cmp) bool {
-				return cm.Op == token.LEQ && strings.HasPrefix(core.Sym(cm.X), "len(") && strings.Contains(core.Sym(cm.X), "Lints(") && core.Sym(cm.Y) == "c:0"
+				y := core.Sym(cm.Y)
+				return isLen(cm) && ((y == "c:0" && (cm.Op == token.LEQ || cm.Op == token.EQL)) || (y == "c:1" && cm.Op == token.LSS))
 			})
 			if len(pos) != 1 || len(npos) != 1 {
 				ok, why = false, "no single test len(lints) > 0"
